@@ -65,21 +65,26 @@ Section Step.
     tcp_process cx s ip r = Ok (s', rep, tags) ->
     reply_ok s' rep /\
     (rx_synced S F (have_seg have c s r) irs c s' \/
-     (rx_unsynced s' /\ s_state s' = Listen /\ rep = None /\ c = 0)) /\
+     (rx_unsynced s' /\ s_state s' = Listen /\ rep = None /\ c = 0 /\
+      rb_len (s_rx_buffer s) = 0 /\ s_rx_fin_received s = false)) /\
     beyond_untouched s' s /\
-    (s_rx_fin_received s' = true -> s_rx_fin_received s = true \/ r_control r = CFin).
+    (s_rx_fin_received s' = true -> s_rx_fin_received s = true \/ r_control r = CFin) /\
+    wsq c s <= wsq c s'.
   Proof.
     intros Hinv Hseg H.
     assert (Hmono : forall k, have k -> have_seg have c s r k) by (intros k Hk; left; exact Hk).
     assert (Hret : forall s1 rp, same_or_acked s1 s rp ->
               reply_ok s1 rp /\ (rx_synced S F (have_seg have c s r) irs c s1 \/
-                                  (rx_unsynced s1 /\ s_state s1 = Listen /\ rp = None /\ c = 0)) /\
+                                  (rx_unsynced s1 /\ s_state s1 = Listen /\ rp = None /\ c = 0 /\
+                                   rb_len (s_rx_buffer s) = 0 /\ s_rx_fin_received s = false)) /\
               beyond_untouched s1 s /\
-              (s_rx_fin_received s1 = true -> s_rx_fin_received s = true \/ r_control r = CFin)).
+              (s_rx_fin_received s1 = true -> s_rx_fin_received s = true \/ r_control r = CFin) /\
+              wsq c s <= wsq c s1).
     { intros s1 rp Hsa. destruct (same_or_acked_synced have irs c s1 s rp Hsa Hinv) as (H1 & H2).
-      split; [exact H2|]. split; [left; eapply rx_synced_mono; eassumption|]. split.
+      split; [exact H2|]. split; [left; eapply rx_synced_mono; eassumption|]. split; [|split].
       - intros i _. destruct Hsa as (_ & [(_ & -> & _) | (_ & -> & _)] & _); reflexivity.
-      - intros Hf. left. destruct Hsa as (_ & [(_ & _ & E & _) | (_ & _ & E & _)] & _); congruence. }
+      - intros Hf. left. destruct Hsa as (_ & [(_ & _ & E & _) | (_ & _ & E & _)] & _); congruence.
+      - unfold wsq, finz. destruct Hsa as (_ & [(_ & E2 & E3 & _) | (_ & E2 & E3 & _)] & _); rewrite E2, E3; lia. }
     unfold tcp_process in H. destruct (tcp_accepts s ip r); cbn [negb] in H; [|discriminate].
     apply obind_ok_inv in H. destruct H as (p1 & Hp1 & H).
     destruct p1 as [t1 []|t1 s1 rep1].
@@ -137,13 +142,14 @@ Section Step.
                                   | right; eapply rxv_acked_of_eq; eassumption].
         - split; [exact I|]. pose proof (rxv_eq_trans _ _ _ He (proj1 Hf2)) as He'.
           split; [|split; [intros i _; destruct He' as (_ & -> & _); reflexivity
-                          | intros Hf; left; destruct He' as (_ & _ & E & _); congruence]].
+                          | split; [intros Hf; left; destruct He' as (_ & _ & E & _); congruence
+                                   | unfold wsq, finz; destruct He' as (_ & E2 & E3 & _); rewrite E2, E3; lia]]].
           destruct Hstate as [Hcl | (Hli & Hsr)].
           + left. eapply rx_synced_mono; [exact Hmono|].
             eapply rx_synced_view; [exact He' | unfold st_ok; rewrite Hcl; exact I | exact Hinv].
           + destruct Hf2 as (_ & Hst2). rewrite Hst2 in Hsr. unfold st_ok in Hsto. rewrite Hsr in Hsto.
             destruct Hsto as (Hl0 & Ha0 & Hf0 & Hc00).
-            right. split; [|split; [exact Hli | split; [reflexivity | exact Hc00]]].
+            right. split; [|split; [exact Hli | split; [reflexivity | split; [exact Hc00 | split; assumption]]]].
             destruct He' as (E1 & E2 & E3 & E4 & E5 & E6 & E7).
             unfold rx_unsynced, misc_ok, lwb. rewrite E1, E2, E3, E6, E7, Hli.
             split; [exact Hwf|]. repeat split; try assumption. }
@@ -210,9 +216,11 @@ Section Step.
       destruct Htr as [(_ & (_ & _ & T3 & _)) | (Hc1 & _)].
       - left. congruence.
       - right. rewrite Hc1 in Hquash. exact (proj1 Hquash). }
-    cut ((rx_synced S F (have_seg have c s r) irs c s8 \/
-          rx_unsynced s8 /\ s_state s8 = Listen /\ rep8 = None /\ c = 0) /\ beyond_untouched s8 s).
-    { intros (X1 & X2). split; [exact X1|]. split; [exact X2 | exact Hfinfrom]. }
+    cut (((rx_synced S F (have_seg have c s r) irs c s8 \/
+           rx_unsynced s8 /\ s_state s8 = Listen /\ rep8 = None /\ c = 0 /\
+           rb_len (s_rx_buffer s) = 0 /\ s_rx_fin_received s = false) /\
+          wsq c s <= wsq c s8) /\ beyond_untouched s8 s).
+    { intros ((X1 & X3) & X2). split; [exact X1|]. split; [exact X2|]. split; [exact Hfinfrom | exact X3]. }
     split.
     2:{ intros i Hi.
         assert (HadvW : adv_width s = W).
@@ -220,7 +228,15 @@ Section Step.
         rewrite HadvW in Hi.
         assert (off + l_len payload <= W) by (subst off; rewrite Hpl; unfold trim_off, trim_len; lia).
         apply P12; lia. }
-    left.
+    cut (rx_synced S F (have_seg have c s r) irs c s8 /\ wsq c s <= wsq c s8).
+    { intros (X1 & X2). split; [left; exact X1 | exact X2]. }
+    apply and_comm. split.
+    { unfold wsq, finz. rewrite ?Hrx7 in P7.
+      assert (b2z (s_rx_fin_received s) <= b2z (s_rx_fin_received s8)).
+      { rewrite P2, V3. destruct Htr as [(_ & (_ & _ & T3 & _)) | (_ & (_ & _ & T3 & _))].
+        - rewrite T3, U3. cbn [s_rx_fin_received]. lia.
+        - rewrite T3. pose proof (b2z_range (s_rx_fin_received s)). cbn [b2z]. lia. }
+      lia. }
     (* assemble the invariant of the final state *)
     pose proof (b2z_range (s_rx_fin_received s)) as Hfr.
     assert (Hcap8 : rb_cap (s_rx_buffer s8) = rb_cap (s_rx_buffer s)) by congruence.
